@@ -192,6 +192,13 @@ theorem tieA_iterator_DownlinkDUTCommand (data : List Nat) (hlen : data.length <
   rw [h]
   exact gRun_tie _ _ _ TieA.FrameDownlinkDUTCommand.Q TieA.FrameDownlinkDUTCommand.Q_down TieA.FrameDownlinkDUTCommand.P_tie _ data false hlen
 
+/-! non-vacuity: a concrete stream through the regenerated iterator (CID and payload octets of every item, `none` = the
+error item; the unread rest and the `errored` flag; budget not exhausted); the length hypothesis holds of it -/
+example : (runFuelOf Gen.MacCmdFnDownlinkDUTCommand.MacCommands.next (6 + 2) ⟨[6, 5, 7, 1, 2, 3], false⟩).map
+    (fun r => (r.1.map (fun i => (TieA.FrameDownlinkDUTCommand.itemOf i).toOption.map (fun c => (c.1, c.2.2.2))), TieA.FrameDownlinkDUTCommand.stOf r.2.1, r.2.2))
+    = some ([some (6, [5]), some (7, [1, 2, 3])], ([], false), false) := by decide
+example : ([6, 5, 7, 1, 2, 3] : List Nat).length < 2 ^ 64 := by decide
+
 #print axioms tieA_parse_one_DownlinkDUTCommand
 #print axioms tieA_next_DownlinkDUTCommand
 #print axioms tieA_iterator_DownlinkDUTCommand
